@@ -193,6 +193,13 @@ class SyncedDict(SyncedCollection, MutableMapping):
 
         """
         if _mapping_resolver.get_type(data) == "MAPPING":
+            if self._root is not None:
+                # A nested collection is only a part of the synced data: apply
+                # the change to the current content of the resource so that
+                # changes made through other handles are not overwritten.
+                with self._load_and_save:
+                    self._update(data)
+                return
             self._update(data)
             with self._thread_lock:
                 self._save()
@@ -230,6 +237,11 @@ class SyncedDict(SyncedCollection, MutableMapping):
         return ret
 
     def clear(self):  # noqa: D102
+        if self._root is not None:
+            # See the comment in reset().
+            with self._load_and_save:
+                self._data.clear()
+            return
         self._data = {}
         with self._thread_lock:
             self._save()
